@@ -101,19 +101,37 @@ func ruleWAddr(c *Ctx) {
 		ok := len(calls) == 1 && calls[0] == "copy(alloc#0[0:len(alloc#0)], p0[21:len(p0)])"
 		c.Check(ok, "W-addr", "a25.embeddedChecksum", fn.Pos(), "the embedded checksum is bytes 21..25", "the validator no longer reads the embedded checksum from bytes 21..25: "+strings.Join(calls, "; "))
 	}
-	// the string is validated as given
+	// the string is validated as given (helpers ValidateAddress was split into are read as part of it)
 	if fn := get("", "ValidateAddress"); fn != nil {
-		calls, _, _ := termsOfCalls(fn)
-		okV, okD := false, false
-		for _, cl := range calls {
-			if cl == "validA58([]byte(p0))" {
-				okV = true
+		okV, okD, other := false, false, ""
+		paths, err := feasiblePaths(fn, 500)
+		if err != nil {
+			c.Undecided("W-addr", "ValidateAddress/as-given", fn.Pos(), err.Error())
+		} else {
+			for _, d := range paths {
+				for _, ins := range pathInstrs(d) {
+					call, ok := ins.(*ssa.Call)
+					if !ok || call.Call.StaticCallee() == nil {
+						continue
+					}
+					switch call.Call.StaticCallee().Name() {
+					case "validA58":
+						if a := atomName(d.Env.Term(call.Call.Args[0])); a == "[]byte(p0)" {
+							okV = true
+						} else {
+							other = "validA58(" + a + ")"
+						}
+					case "DecodeBIP276":
+						if a := atomName(d.Env.Term(call.Call.Args[0])); a == "p0" {
+							okD = true
+						} else {
+							other = "DecodeBIP276(" + a + ")"
+						}
+					}
+				}
 			}
-			if cl == "DecodeBIP276(p0)" {
-				okD = true
-			}
+			c.Check(okV && okD && other == "", "W-addr", "ValidateAddress/as-given", fn.Pos(), "the caller's string itself is handed to validA58 / DecodeBIP276", "ValidateAddress transforms the string before validating it (trimmed, lower-cased ...): it accepts strings that the address constructors reject "+other)
 		}
-		c.Check(okV && okD, "W-addr", "ValidateAddress/as-given", fn.Pos(), "the caller's string itself is handed to validA58 / DecodeBIP276", "ValidateAddress transforms the string before validating it (trimmed, lower-cased ...): it accepts strings that the address constructors reject")
 	}
 	// decoder: 25 bytes, hash = bytes 1..21
 	if fn := get("", "addressToPubKeyHashStr"); fn != nil {
